@@ -152,6 +152,13 @@ class FrameCollector:
                     class_name = type(_self).__name__
                 except BaseException:
                     class_name = None
+            if class_name is not None and type(class_name) is not str:
+                # the name of a class need not be text (class decorators, mocks replace it): we take its text form, and
+                # do without a class name when it has none - it must not cost us the snapshot when it is sent
+                try:
+                    class_name = str.__str__(str(class_name))
+                except BaseException:
+                    class_name = None
 
         var_ids = []
         # only process vars if we are under the time limit
